@@ -115,7 +115,7 @@ m = {
     "hooks": {"guard": "cargo feature verif-hooks",
               "enable": "the harness crate /verif/harness depends on brc20-prog = { path = \"/repo\", features = [\"verif-hooks\"] }; `cargo build --offline` in /verif/harness rebuilds /repo's working tree with the hooks on",
               "baseline_off_cmd": "cd /repo && cargo test --workspace --no-fail-fast --offline",
-              "source_commits": ["cefa175", "f6b9057", "7ebaff9"], "add_only": True},
+              "source_commits": ["cefa175", "f6b9057", "7ebaff9", "375aba9"], "add_only": True},
     "engines": [{"name": "lean-proof+correspondence", "path": "/verif/check", "serves_properties": sorted(CLAIMED),
                  "kind_free_text": "Lean 4 theorems over an executable model (lean/Brc20), facts regenerated from the source on every run (tools/gen_*.py -> lean/Brc20/Gen), and a differential correspondence check between the compiled model driver and the real code driven in-process by /verif/harness"}],
     "checks": [], "notes": "see DESIGN.md; known findings in known_findings.json; seeded changes in seeded/", "not_applicable": []}
